@@ -80,7 +80,8 @@ class Run:
             print("KNOWN-FINDING: property=%s %s — %s [%s]" % (self.prop, f["key"], f["what"], f["where"]))
         for o in self.observations:
             print("observation: %s %s — %s" % (o["rule"], o["where"], o["what"]))
-        report_path = os.path.join(VERIF, "evidence", self.prop + ".report.json")
+        evdir = os.environ.get("BSA_EVIDENCE_DIR") or os.path.join(VERIF, "evidence")
+        report_path = os.path.join(evdir, self.prop + ".report.json")
         os.makedirs(os.path.dirname(report_path), exist_ok=True)
         with open(report_path, "w") as fh:
             json.dump({"property": self.prop, "tier": self.tier, "violations": violations, "known": known_hits,
@@ -114,7 +115,7 @@ class Run:
             "wall_s": round(time.time() - self.t0, 2),
             "violations": len(violations),
         }
-        with open(os.path.join(VERIF, "evidence", self.prop + ".json"), "w") as fh:
+        with open(os.path.join(evdir, self.prop + ".json"), "w") as fh:
             json.dump(ev, fh, indent=1)
         print("%s [%s]: %d obligations, %d discharged, %d known finding(s), %d violation(s), %d function(s), %.1fs" % (
             self.prop, self.tier, self.obligations, self.discharged, len(known_hits), len(violations),
